@@ -250,3 +250,38 @@ static void sym_case(int d, long long k) {
   }
 }
 #endif
+
+// ------------------------------------------------------------------ index types
+// The templates take the index type as a parameter (lib/matvec/unsigned.h exists for the unsigned ones): CovMat and
+// BandMat instantiated with long / unsigned / unsigned long must give bit for bit what the int instantiation gives:
+// product with a vector, cholDec, solve; for every dim 1..8 x band 0..dim-1 x two value families.
+template <template <class, class, class> class BMT, class Index> static void idx_one(const char* cname, const char* iname, int d, int bw, int fam) {
+  typedef BMT<double, int, Exc> RefM; typedef BMT<double, Index, Exc> TM;
+  typedef GNU_gama::Vec<double, int, Exc> RefV; typedef GNU_gama::Vec<double, Index, Exc> TV;
+  RefM R(d, bw); TM T((Index)d, (Index)bw); R.set_zero(); T.set_zero();
+  for (int i = 1; i <= d; i++) for (int j = i; j <= i + bw && j <= d; j++) {
+    double x = (i == j) ? 10.0 * (bw + 1) + i + (fam ? 0.5 * j : 0) : (fam ? -1.0 : 1.0) * (1 + double((i * 7 + j * 13) % 5));
+    R(i, j) = x; T((Index)i, (Index)j) = x;
+  }
+  RefV rv(d); TV tv((Index)d); for (int i = 1; i <= d; i++) { rv(i) = (i % 2 ? 1.0 : -2.0) * i; tv((Index)i) = rv(i); }
+  std::string cls = std::string(iname) + "|band" + (bw >= 3 ? ">=3" : std::to_string(bw));
+  C("transitions");
+  try {
+    RefV rp = R * rv; TV tp = T * tv;
+    for (int i = 1; i <= d; i++) if (rp(i) != tp((Index)i)) { bad("index-type", std::string(cname) + "*Vec", cls, "dim " + std::to_string(d) + " band " + std::to_string(bw) + " row " + std::to_string(i) + ": " + str(tp((Index)i)) + ", int instantiation " + str(rp(i))); break; }
+    R.cholDec(); T.cholDec();
+    R.solve(rp); T.solve(tp);
+    for (int i = 1; i <= d; i++) if (rp(i) != tp((Index)i)) { bad("index-type", std::string(cname) + "::solve", cls, "dim " + std::to_string(d) + " band " + std::to_string(bw) + " row " + std::to_string(i) + ": " + str(tp((Index)i)) + ", int instantiation " + str(rp(i))); break; }
+  } catch (const Exc& e) { bad("index-type", cname, cls + "|unexpected-exception", e.what()); }
+}
+static const int IDX_DMAX = 8;
+static long long idx_total() { return (long long)IDX_DMAX * IDX_DMAX * 2; }
+static std::string idx_fmt(long long k) { int fam = (int)(k % 2), bw = (int)(k / 2) % IDX_DMAX, d = (int)(k / 2) / IDX_DMAX + 1; return "CovMat/BandMat<long, unsigned, unsigned long> dim " + std::to_string(d) + " band " + std::to_string(bw) + " family " + std::to_string(fam); }
+static void idx_case(long long k) {
+  int fam = (int)(k % 2), bw = (int)(k / 2) % IDX_DMAX, d = (int)(k / 2) / IDX_DMAX + 1;
+  if (bw >= d) return;
+  C("states"); C("evaluations"); g_cls = "";
+  idx_one<GNU_gama::CovMat, long>("CovMat", "long", d, bw, fam); idx_one<GNU_gama::CovMat, unsigned>("CovMat", "unsigned", d, bw, fam); idx_one<GNU_gama::CovMat, unsigned long>("CovMat", "unsigned-long", d, bw, fam);
+  idx_one<GNU_gama::BandMat, long>("BandMat", "long", d, bw, fam); idx_one<GNU_gama::BandMat, unsigned>("BandMat", "unsigned", d, bw, fam); idx_one<GNU_gama::BandMat, unsigned long>("BandMat", "unsigned-long", d, bw, fam);
+  O("index-types:band" + std::string(bw >= 3 ? ">=3" : std::to_string(bw)));
+}
